@@ -236,6 +236,84 @@ def run(chk):
             ndis += 1
             chk.tie_break('correspondence:classmap', 'Silf::readClassMap and Model/ClassMapModel.v disagree: impl %s model %s' % (i[:200], m[:200]), c[:400])
     dist.update({'classmap ' + k: v for k, v in cstats.items()})
+    # --- the Silf directory and subtable headers (Face::readGraphite / Silf::readGraphite) against Model/SilfModel.v: compiled GDL-lite
+    # Silf tables laid out again under every table version with justification levels, critical features, script tags, pseudo glyphs and
+    # several subtables, valid and damaged field by field.  Verdict, error code and every header field must agree; where the loader fails
+    # inside a pass beyond what Model/PassModel.v covers (code loading, rules, states, ranges) the model may only have accepted that far.
+    from props import c06 as _c06, cmapgen as _cmapgen, silfgen
+    smexe = vlib.build_model_driver('Silf')
+    sbase_path = os.path.join(vlib.REPO, 'tests/fonts', _c06.BASE)
+    sbase = K.enrich(open(sbase_path, 'rb').read())      # glyph attributes 4..7 and two features, as the compiled programs expect
+    scm = _cmapgen.parse_font_cmap(sbase_path)
+    sfont = os.path.join(tmp, 'silfbase.ttf')
+    open(sfont, 'wb').write(sbase)
+    sinv = {}
+    for c_, g_ in scm.items():
+        if 0x21 <= c_ <= 0x7E and g_:
+            sinv.setdefault(g_, c_)
+    ng0 = K.base_info(sbase)[0]
+    _go = K.font_tables(sbase)[b'Gloc'][0]
+    na0 = struct.unpack('>H', sbase[_go + 6:_go + 8])[0]
+    def fresh_silf():
+        prog, nsub = _c06.gen_program(rng, sorted(sinv))
+        return K.compile_silf(prog, ng0 - 1, nsub)
+    scases, swhat = [], []
+    for k in range(6000 if thorough else 700):
+        tbl, what = silfgen.gen_case(rng, fresh_silf, ng0, na0)
+        scases.append('sh%d silf %s %s' % (k, sfont, tbl.hex() or '-')); swhat.append(what)
+    _, sil, _ = vlib.run_pair(None, hexe, scases, timeout=3000)
+    smodel = []
+    for c, l in zip(scases, sil):
+        kv = dict(x.split('=', 1) for x in (l or '').split() if '=' in x)
+        smodel.append('%s silf %s %s %s %s' % (c.split()[0], kv.get('ng', '0'), kv.get('na', '0'), kv.get('bx', '0'), c.split()[3]))
+    sml, _, _ = vlib.run_pair(smexe, None, smodel, timeout=3000)
+    HDR = set(range(5, 27)) | {34, 35, 53, 55}
+    CMC = set(range(27, 34)) | {0xFFFFFFFF}
+    PMC = set(range(36, 48)) | {54, 56, 57}
+    sstat = {}
+    for c, what, i, m in zip(scases, swhat, sil, sml):
+        if i is None or m is None:
+            chk.tie_break('harness', 'no result line', c[:200]); continue
+        it, mt = i.split(), m.split()
+        if 'ABORT' in it[1:3]:
+            chk.violation('c01:silf-abort:%s' % what[:60], 'Face::readGraphite aborted on a crafted Silf table (%s): %s' % (what, i[:300]), dict(case=c[:8000], got=i[:600], mutation=what)); continue
+        if 'NOTABLE' in it and len(c.split()[3]) < 8 and mt[2:4] in (['REJ', '7'], ['REJ', '5']):
+            sstat['notable/REJ'] = sstat.get('notable/REJ', 0) + 1; continue          # Face::Table refuses a table shorter than 4 bytes before readGraphite sees it
+        if 'NOGLYPHS' in it or 'NOTABLE' in it or len(mt) < 3 or mt[2] == 'BAD':
+            chk.tie_break('harness', 'silf case not run: %s / %s' % (i[:100], m[:100]), c[:200]); continue
+        if mt[2] == 'TRAP':
+            ndis += 1; chk.tie_break('model:silf', 'Model/SilfModel.v reads outside the table (contradicts C01_silf_reads_in_bounds): %s' % m[:200], c[:300]); continue
+        kv = dict(x.split('=', 1) for x in it if '=' in x)
+        ok, err, ctx = kv['ok'] == '1', int(kv['err']), int(kv['ctx'], 16)
+        mfields = [' '.join(x.split()[:-1]) for x in m.split(' | ')[1:]]          # without the pass types
+        ifields = [x.strip() for x in i.split(' | ')[1:]]
+        mv = mt[2]
+        mkv = dict(x.split('=', 1) for x in mt[3:6] if '=' in x)
+        good, why = True, ''
+        if ok:
+            good = mv == 'OK' and mfields == ifields
+            why = 'the loader accepted the table; the model says %s' % ' '.join(mt[2:6]) if mv != 'OK' else 'the header fields differ'
+        elif mv == 'NOPASS':
+            good = err == 0; why = 'no subtable has passes: the loader must refuse without an error code'
+        elif err in HDR:
+            good = mv == 'REJ' and int(mt[3]) == err and (err in (34, 35) or (ctx & 0xFF) != 3 or int(mkv.get('s', 0)) == (ctx >> 8) & 0xFF)
+            why = 'header test: loader error %d (context %x), model %s' % (err, ctx, ' '.join(mt[2:6]))
+        elif err in CMC:
+            good = mv == 'REJCM'; why = 'class map refused by the loader (error %d), model %s' % (err, ' '.join(mt[2:6]))
+        elif err in PMC:
+            good = mv == 'REJPASS' and ((ctx & 0xFF) != 3 or int(mkv.get('i', -1)) == ctx >> 16)
+            why = 'pass test: loader error %d (context %x), model %s' % (err, ctx, ' '.join(mt[2:6]))
+        else:                                                  # beyond the model: code loading, rules, states, ranges (or readRules' uncoded refusals)
+            good = mv in ('OK', 'REJPASS') or (mv in ('REJ', 'REJCM') and (int(mkv.get('s', 0)) > 0 or (mv == 'REJ' and int(mt[3]) in (34, 35))))
+            why = 'the loader failed inside a pass (error %d) but the model refuses the table earlier: %s' % (err, ' '.join(mt[2:6]))
+        cls = ('ok' if ok else 'err%d' % (err if err < 100 else 99)) + '/' + mv
+        sstat[cls] = sstat.get(cls, 0) + 1
+        classes.add(('silf', cls, what.split()[0][:8]))
+        if not good:
+            ndis += 1
+            chk.tie_break('correspondence:readGraphite', 'Face::readGraphite / Silf::readGraphite and Model/SilfModel.v disagree (%s): %s; impl %s; model %s' % (what, why, i[:260], m[:260]), c[:400])
+    chk.notes.append('silf headers: %s' % sorted(sstat.items()))
+    dist.update({'silf ' + k: v for k, v in sstat.items()})
     # --- oracle: load + query everything + destroy
     cases, keep = [], {}
     fz = os.path.join(vlib.REPO, 'tests', 'fuzz-tests')
